@@ -18,7 +18,7 @@ import labtech
 
 from .. import universe as U
 from ..common import HarnessError, Result, Violation, pmap, silence_labtech
-from ..storages import LocalFsspecStorage, LocalStorage, MemStorage
+from ..storages import LocalFsspecStorage, LocalStorage, MemFsspecStorage, MemStorage
 
 # node: (label, dependency node or None, type slot) ; type slot 'K' = the cache kind under test, 'N' = cache=None
 NODES = [(1, None, 'K'), (2, None, 'K'), (3, None, 'N'), (4, 0, 'K'), (5, 2, 'K')]
@@ -106,6 +106,8 @@ def make_storage(skind):
         return MemStorage(), None
     if skind == 'null':
         return None, None
+    if skind == 'fsmem':
+        return MemFsspecStorage(), None
     tmp = tempfile.mkdtemp(prefix='c08_')
     return (LocalStorage(tmp) if skind == 'local' else LocalFsspecStorage(tmp)), tmp
 
@@ -117,6 +119,8 @@ def copy_storage(skind, storage, tmp):
         return c, None
     if skind == 'null':
         return None, None
+    if skind == 'fsmem':
+        return storage.clone(), None
     t2 = tempfile.mkdtemp(prefix='c08c_')
     shutil.rmtree(t2)
     shutil.copytree(tmp, t2, symlinks=True)
@@ -175,7 +179,11 @@ def replay_history(cfg, hist, check_last_only=True):
             wantc = [i in model.d for i in range(len(NODES))]
             if cached != wantc:
                 viols.append(('is_cached-mismatch', f'{d}: is_cached {cached} model {wantc}'))
-            keys = listing(skind, storage)
+            try:
+                keys = listing(skind, storage)
+            except BaseException as e:  # noqa
+                viols.append((f'find_keys-raised:{type(e).__name__}', f'{d}: Storage.find_keys raised {type(e).__name__}: {e}'))
+                keys = sorted(tasks[i].cache_key for i in model.d)
             wkeys = sorted(tasks[i].cache_key for i in model.d)
             # The model's entries must be there.  Extra keys are only a violation of the statement
             # when they are observable through the Lab (is_cached / cached_tasks / read-back, checked
@@ -214,13 +222,21 @@ def replay_history(cfg, hist, check_last_only=True):
             finally:
                 if isinstance(cstore, MemStorage):
                     cstore.release()
+                if isinstance(cstore, MemFsspecStorage):
+                    cstore.destroy()
                 if ctmp:
                     shutil.rmtree(ctmp, ignore_errors=True)
-        canon = canonical(model, listing(skind, storage) if skind != 'null' else [])
+        try:
+            final_keys = listing(skind, storage) if skind != 'null' else []
+        except BaseException:  # noqa  (already reported above)
+            final_keys = sorted(str(i) for i in model.d)
+        canon = canonical(model, final_keys)
         return viols, canon
     finally:
         if isinstance(storage, MemStorage):
             storage.release()
+        if isinstance(storage, MemFsspecStorage):
+            storage.destroy()
         if tmp:
             shutil.rmtree(tmp, ignore_errors=True)
 
@@ -282,10 +298,10 @@ def _j(x):
 def run(tier: str, seed: int) -> Result:
     silence_labtech()
     if tier == 'quick':
-        cfgs = [(('mem', 'TA'), 3), (('mem', 'TA', 'one-lab'), 3), (('mem', 'TJ'), 2), (('mem', 'T2'), 2), (('local', 'TA'), 2), (('fsspec', 'TA'), 2), (('null', 'TA'), 2)]
+        cfgs = [(('mem', 'TA'), 3), (('mem', 'TA', 'one-lab'), 3), (('mem', 'TJ'), 2), (('mem', 'T2'), 2), (('local', 'TA'), 2), (('fsspec', 'TA'), 2), (('fsmem', 'TA'), 2), (('null', 'TA'), 2)]
     else:
         cfgs = [(('mem', 'TA'), 4), (('mem', 'TA', 'one-lab'), 4), (('local', 'TA', 'one-lab'), 3), (('mem', 'TJ'), 3), (('mem', 'T2'), 3), (('local', 'TA'), 3), (('fsspec', 'TA'), 3),
-                (('local', 'TJ'), 2), (('fsspec', 'TJ'), 2), (('null', 'TA'), 3)]
+                (('local', 'TJ'), 2), (('fsspec', 'TJ'), 2), (('fsmem', 'TA'), 3), (('fsmem', 'TJ'), 2), (('null', 'TA'), 3)]
     stats = {'states': 0, 'transitions': 0, 'revisits': 0, 'frontier_sizes': []}
     viols: list = []
     per_cfg = []
